@@ -141,6 +141,8 @@ class Rng(Interp):
         return R
 
     def h_attr(self, v, attr, n, env, ctx):
+        if isinstance(v, tuple) and len(v) == 2 and v[0] == "bitgen" and attr == "state":
+            return ("state-of", v[1])           # the state of a bit generator seeded with v[1]: setting the global stream to it is seeding with v[1]
         return R
 
     def h_subscript(self, base, idx, n, env, ctx):
@@ -261,7 +263,12 @@ class Rng(Interp):
         return super().key(v)
 
     def join_state(self, k, a, b):
-        return a if a == b else None
+        if a == b:
+            return a
+        if k == "$g" and a is not None and b is not None:
+            # seeded on both ways, not in the same manner: neither "seeded with the caller's seed" nor "not seeded"
+            return ("seeded-mixed", tuple(sorted({repr(a), repr(b)})))
+        return None
 
     # ------------------------------------------------------------------ calls
     def seed_state(self, v):
@@ -282,6 +289,14 @@ class Rng(Interp):
         if d in api.GLOBAL_SEED:
             st = self.seed_state(a0 if a0 is not None else NONE)
             self.eff(ctx, "seed_global", n, a0 if a0 is not None else NONE, env)
+            env["$g"] = st
+            return NONE
+        if d in ("numpy.random.MT19937", "numpy.random.RandomState") and isinstance(a0, SeedV) and len(args) + len(kwargs) == 1:
+            return ("bitgen", a0)
+        if d == "numpy.random.set_state" and isinstance(a0, tuple) and len(a0) == 2 and a0[0] == "state-of" and len(args) + len(kwargs) == 1:
+            # np.random.set_state(np.random.MT19937(seed).state): the global stream starts where a generator seeded with `seed` starts
+            st = self.seed_state(a0[1])
+            self.eff(ctx, "seed_global", n, a0[1], env)
             env["$g"] = st
             return NONE
         if d in ("numpy.random.set_state", "numpy.random.set_bit_generator"):
